@@ -278,6 +278,9 @@ class Traced:
     pass
 
 
+_dir_names = [0]
+
+
 def run_traced(nodes, data0, ctx0, detail="hash", mode="file", pipe=None, driver=None, path=None, keep_dir=False, run_metadata=None):
     """Traced run.  Observes, at the moment process() returns or raises: driver._file, bytes on disk;
     then forces the handle shut and reads what was emitted."""
@@ -287,7 +290,16 @@ def run_traced(nodes, data0, ctx0, detail="hash", mode="file", pipe=None, driver
     own_dir = None
     if driver is None:
         own_dir = tempfile.mkdtemp(prefix="verif_trace_")
-        path = os.path.join(own_dir, "t.ser.jsonl") if mode == "file" else os.path.join(own_dir, "traces")
+        if mode == "file":
+            path = os.path.join(own_dir, "t.ser.jsonl")
+        else:
+            # directory output: a directory that does not exist yet, one that exists, and existing ones whose name
+            # contains a dot (a version, a date) -- rotating, so every caller of the directory mode sees all of them
+            _dir_names[0] += 1
+            name, make = [("traces", False), ("traces_here", True), ("traces.v2", True), ("2026.09.30", True)][_dir_names[0] % 4]
+            path = os.path.join(own_dir, name)
+            if make:
+                os.makedirs(path)
         driver = JsonlTraceDriver(path, detail=detail)
     r.driver, r.path, r.detail, r.mode = driver, path, detail, mode
     pipe = pipe or make_pipeline(nodes, trace=driver)
